@@ -1,7 +1,7 @@
 """DOT output (C15): the quoting of text put into DOT strings."""
 
 
-@contract("prov.dot._quoted", props=["C15"])
+@contract("prov.dot._quoted", props=["C15", "C13"])
 def _quoted(text: "str") -> "str":
     pure()
     note("stated for str arguments (identifiers and labels are turned into text by str() first)")
